@@ -92,7 +92,12 @@ impl DeletionQuery {
                     }
                     let mut node = *node;
                     deletion_query.updated_nodes_previous_date.push(node.mdate);
-                    node.mdate = date;
+                    //the new version is dated after the version it replaces, whatever the clock of this device
+                    node.mdate = if node.mdate >= date {
+                        node.mdate + 1
+                    } else {
+                        date
+                    };
                     deletion_query.updated_nodes.push(node);
                 }
             }
